@@ -57,6 +57,16 @@ Proof.
 Qed.
 Print Assumptions C12_roundtrip_compiled.
 
+(* ... and that text is itself derivable from the RFC 9535 ABNF, character by character (with C04_sound) *)
+From JP Require Import Spec.Rfc9535Grammar Proofs.StringProofs Proofs.TextSound.
+Theorem C12_str_in_grammar : forall cfg q, in_range cfg 1 = true ->
+  wt_query (reg cfg) q = true -> ints_in_range (min_idx cfg) (max_idx cfg) q = true -> lx_query q = true ->
+  forallb is_scalar (m_str q) = true -> rfc_query (m_str q).
+Proof.
+  intros cfg q H1 Hw Hi Hl Hs. apply (compile_text_sound cfg (m_str q) (map cn_seg q) Hs). apply compile_str_f; assumption.
+Qed.
+Print Assumptions C12_str_in_grammar.
+
 (* the hypotheses are satisfiable: the query of C12_example below, with count() registered *)
 Example C12_roundtrip_nonvacuous :
   let rg := [([99; 111; 117; 110; 116]%N, {| f_args := [TNodes]; f_ret := TValue; f_impl := FCount |})] in
